@@ -93,6 +93,8 @@ def run(name, pids):
 
 
 if __name__ == "__main__":
+    import signal
+    signal.signal(signal.SIGTERM, lambda *a: sys.exit(143))     # so that `finally` undoes the applied patch
     if sys.argv[1] == "confirm":
         sys.exit(confirm(*sys.argv[2:6]))
     sys.exit(run(sys.argv[2], sys.argv[3:]))
